@@ -378,10 +378,34 @@ func (p *vesting) Exec(w *e.World, st *e.Step) *e.Violation {
 				if dest == signer {
 					got.Add(got, fee)
 				}
-				// the one open corner: a zero-length period read exactly at its grant's start
-				incl := m.UnvestedIncl(now).Cmp(m.Unvested(now)) != 0 && got.Cmp(m.UnvestedIncl(now)) == 0
-				if dest == st.B {
-					incl = post[st.B].va != nil && post[st.B].va.OriginalVesting.AmountOf(e.Denom).BigInt().Cmp(new(big.Int).Sub(m.Original(), m.UnvestedIncl(now))) == 0
+				if st.B != signer && dest != st.B {
+					// What the vesting account lost is the clawed-back amount. The
+					// destination's own balance may move for other reasons in the same tx
+					// (a signer short of coins pays the fee out of staking rewards it claims),
+					// so it only has to have received at least that much.
+					lost := sub(pre[st.B].bal, post[st.B].bal)
+					if got.Cmp(lost) < 0 {
+						return e.Violatef("vesting-clawback", "clawback-not-received-by-destination", "clawback of acct %d at %d: the account lost %s, destination acct %d gained only %s", st.B, now, lost, dest, got)
+					}
+					got = lost
+				}
+				// the one open corner: a zero-length period read exactly at its grant's start.
+				// It can be open in any denomination; the stored account tells which reading
+				// the chain took (it must be the same for every denomination).
+				incl := false
+				corner := false
+				for _, d := range vestDenoms {
+					if m.UnvestedInclD(now, d).Cmp(m.UnvestedD(now, d)) != 0 {
+						corner = true
+					}
+				}
+				if corner && post[st.B].va != nil {
+					incl = true
+					for _, d := range vestDenoms {
+						if post[st.B].va.OriginalVesting.AmountOf(d).BigInt().Cmp(new(big.Int).Sub(m.OriginalD(d), m.UnvestedInclD(now, d))) != 0 {
+							incl = false
+						}
+					}
 				}
 				want := m.Clawback(now, incl)
 				if dest == st.B {
